@@ -39,6 +39,10 @@ SRewrite     == More /\ E.a = "Rewrite" /\ Rewrite(E.b, E.x) /\ Adv(E)
 SAppend      == More /\ E.a = "Append" /\ Append_(E.b, E.x) /\ Adv(E)
 SConsumeFile == More /\ E.a = "ConsumeFile" /\ ConsumeFile(E.b, E.x) /\ Adv(E)
 SConsumeFail == More /\ E.a = "ConsumeFail" /\ ConsumeFail(E.b) /\ Adv(E)
+SOpenWrite   == More /\ E.a = "OpenWrite" /\ OpenWrite(E.b, E.x) /\ Adv(E)
+SOpenRead    == More /\ E.a = "OpenRead" /\ OpenRead(E.b) /\ Adv(E)
+SCloseAll    == More /\ E.a = "CloseAll" /\ CloseAll /\ Adv(E)
+SBoundary    == More /\ E.a = "Boundary" /\ Boundary /\ Adv(E)
 SModifyP     == More /\ E.a = "ModifyP" /\ ModifyP(E.v) /\ Adv(E)
 SSavepoint   == More /\ E.a = "Savepoint" /\ Savepoint /\ Adv(E)
 SRollback    == More /\ E.a = "Rollback" /\ Rollback(E.k) /\ Adv(E)
@@ -63,7 +67,7 @@ SPack        == More /\ E.a = "Pack" /\ Pack(KTid(E.T)) /\ Adv([E EXCEPT !.T = K
 
 SStep == \/ SCreateBlob \/ SRewrite \/ SAppend \/ SConsumeFile \/ SConsumeFail \/ SModifyP \/ SSavepoint \/ SRollback \/ SAbortTxn
          \/ STpcBegin \/ SStoreOK \/ SStoreFail \/ SUStoreOK \/ SUStoreFail \/ SVote \/ SFinish \/ SConnAbort
-         \/ STpcAbort \/ SOtherCommit \/ SUBegin \/ SPack \/ SUCopyFail \/ SWrong \/ SOtherAbort \/ SOtherFinish \/ SLate
+         \/ STpcAbort \/ SOtherCommit \/ SUBegin \/ SPack \/ SUCopyFail \/ SOpenWrite \/ SOpenRead \/ SCloseAll \/ SBoundary \/ SWrong \/ SOtherAbort \/ SOtherFinish \/ SLate
 \* (the enabling condition of Pack is written out: ENABLED would evaluate the packer a second time)
 PackEnabled(T) == HasPack /\ Idle /\ aux.late = "none" /\ IsClean(con) /\ T \in 1..clk
 SSkip == /\ More
